@@ -54,7 +54,8 @@ pub fn gen_text(r: &mut Rng, class: &str, tag: &str) -> String {
         "delims" => format!("{base} (a) [b] <c> {{d}} /e %f #g \\h )("),
         "latin1" => format!("{base} Año café ü ß ¿"),
         "cp1252" => format!("{base} € “q” – — … ‰ Š"),
-        "bmp" => format!("{base} Ωμέγα привет 漢字"),
+        // the second form has code units whose bytes are ( ) \ CR when written as UTF-16BE
+        "bmp" => if r.bool() { format!("{base} Ωμέγα привет 漢字") } else { format!("{base} Tupĩ Ĩ Ŝ č 小心") },
         // astral characters at the ends of the surrogate ranges: U+10000 (D800 DC00), U+103FF and
         // U+1F3FF (low surrogate DFFF), U+10FFFF (DBFF DFFF)
         "astral" => match r.below(3) {
